@@ -17,7 +17,8 @@ func main() {
 	mode := flag.String("mode", "prod", "prod | toyx | list")
 	out := flag.String("out", "trace.ndjson", "trace file")
 	seed := flag.Uint64("seed", 1, "seed of the random cases")
-	win := flag.Int("win", 256, "reference window |k| <= win")
+	win := flag.Int("win", 256, "reference window |k| <= win (points)")
+	fwin := flag.Int("fwin", 256, "reference window of the scalar / base fields")
 	nrand := flag.Int("nrand", 16, "random strings per decoder")
 	only := flag.String("only", "", "comma separated runner names (default: all)")
 	// toyx
@@ -44,7 +45,7 @@ func main() {
 		return
 	}
 	setupMont()
-	cfg := config{win: *win, nrand: *nrand, seed: *seed, only: map[string]bool{}}
+	cfg := config{win: *win, fwin: *fwin, nrand: *nrand, seed: *seed, only: map[string]bool{}}
 	for _, s := range strings.Split(*only, ",") {
 		if s != "" {
 			cfg.only[s] = true
